@@ -76,8 +76,7 @@ def storeOf (j : Json) : Store :=
     crs := (arr j "crs").map fun x => ⟨str x "crd", str x "name", jInt x "payload"⟩
     lock := if has j "lock" then some (jInt j "lock") else none
     sc := if has j "sc" then some (str (obj j "sc") "scope", jInt (obj j "sc") "extra") else none
-    drc := if has j "drc" then some (jInt j "drc") else none
-    writes := 0 }
+    drc := if has j "drc" then some (jInt j "drc") else none }
 
 def srt {α : Type} (le : α → α → Bool) (l : List α) : List α := l.mergeSort le
 
@@ -170,6 +169,18 @@ def issued {α : Type} (plan : Plan) : Nat → Prog Req Resp α → Store → Li
     | .crashBefore => [r]
     | .crashAfter => [r]
 
+/-- number of applied requests that changed the store -/
+def changed {α : Type} (plan : Plan) : Nat → Prog Req Resp α → Store → Nat
+  | _, .ret _, _ => 0
+  | k, .call r c, s =>
+    let d := if (sem.exec s r).1 = s then 0 else 1
+    match plan k with
+    | .ok => d + changed plan (k+1) (c (sem.exec s r).2) (sem.exec s r).1
+    | .fail => changed plan (k+1) (c (sem.errResp .fail r)) s
+    | .conflict => changed plan (k+1) (c (sem.errResp .conflict r)) s
+    | .crashBefore => 0
+    | .crashAfter => d
+
 def imgObs (i : Img) : Json :=
   match i.ref with
   | none => Json.mkObj [("img", .str i.img), ("ok", .bool false), ("name", .str "")]
@@ -201,7 +212,6 @@ def handler : Handler := fun scn =>
     let (outs, s, okSoFar, why) := acc
     let plan := planOf rj
     let n := nat rj "nonce"
-    let s := { s with writes := 0 }
     let prog := runSteps stdGen steps n 0
     let (s', r) := run sem plan 0 prog s
     let log := (issued plan 0 prog s).map reqLine
@@ -209,7 +219,7 @@ def handler : Handler := fun scn =>
       | none => ("crash", 0)
       | some (.ok, _, d) => ("ok", d)
       | some (.err _, _, d) => ("err", d)
-    let out := Json.mkObj [("res", .str res), ("done", .num (Lean.JsonNumber.fromNat done)), ("writes", .num (Lean.JsonNumber.fromNat s'.writes)),
+    let out := Json.mkObj [("res", .str res), ("done", .num (Lean.JsonNumber.fromNat done)), ("writes", .num (Lean.JsonNumber.fromNat (changed plan 0 prog s))),
       ("log", .arr (log.map Json.str).toArray), ("store", storeJson s')]
     let kept := keptOk (caNames steps) s s'
     (outs ++ [out], s', okSoFar && kept, if kept then why else "C20:material-rewritten")) ([], s0, true, "")
